@@ -2016,7 +2016,8 @@ TARGETS += [
          select=dict(kind='from-decl', var='By', count=6), result='acc_',
          skip_prefixes=[['std', '::', 'vector']], accessors={'Bc.dim()': ('bdims', 'int')},
          trace=dict(reads=[], silent_reads=['Bc.at()'], pushes=['positions.push_back()'], etype='Int', oracle=('bc_', 'truth', 2)),
-         driver_call='fast_positions (fun i j => decide ((a.ints "l1").getD (Int.toNat (i * ((a.ints "l0").getD 1 0) + j)) 0 ≠ 0)) (x 0) (a.ints "l0")',
+         driver_call='(let l0 := a.ints "l0"; let l1 := (a.ints "l1").toArray; let b1 := l0.getD 1 0; '
+                     'fast_positions (fun i j => decide (l1.getD (Int.toNat (i * b1 + j)) 0 ≠ 0)) (x 0) l0)',
          doc='TRACE translation of the statements of `fast_binary_dilate_erode_2d` that build the offset list (`By`, `Bx`, `Cy`, `Cx` and the '
              'two nested loops): the value is the content of `positions` (`dy`, `dx`, `dy`, `dx`, …) in push order; `bc_ y x` stands for '
              '`Bc.at(y, x)`, `Bc.dim(d)` reads the list `bdims`, `Nx` is `array.dim(1)`; `continue` is a jump to the end of the loop body'),
@@ -2032,8 +2033,9 @@ TARGETS += [
              'back to `npy_intp`'),
     dict(_FIND2D, key='find2d_marks', lean='find2d_marks',
          trace=dict(reads=[], silent_reads=['array.at()', 'target.at()'], writes=['out.at()'], oracle=('ne_', '!=', 4)),
-         driver_call='find2d_marks (fun i j k l => decide ((a.ints "l2").getD (Int.toNat (i * ((a.ints "l0").getD 1 0) + j)) 0 ≠ '
-                     '(a.ints "l3").getD (Int.toNat (k * ((a.ints "l1").getD 1 0) + l)) 0)) (a.ints "l0") (a.ints "l1")',
+         driver_call='(let l0 := a.ints "l0"; let l1 := a.ints "l1"; let l2 := (a.ints "l2").toArray; let l3 := (a.ints "l3").toArray; '
+                     'let n1 := l0.getD 1 0; let t1 := l1.getD 1 0; '
+                     'find2d_marks (fun i j k l => decide (l2.getD (Int.toNat (i * n1 + j)) 0 ≠ l3.getD (Int.toNat (k * t1 + l)) 0)) l0 l1)',
          doc='TRACE translation of the whole kernel: the value is the list of the `(y, x)` for which `out.at(y, x) = true` is executed, '
              'in loop order; `ne_ i j k l` stands for `array.at(i, j) != target.at(k, l)`; `array.dim(d)` / `target.dim(d)` read the '
              'lists `adims` / `tdims`; `goto next_pos` (label at the end of the loop body) is a flag that disables the rest of the body'),
@@ -2404,8 +2406,11 @@ def extracted_sources(repo: Path) -> dict:
                 select_stmts(pr, tg['key'], tg['select'])
                 out[tg['key']]['slice'] = f.src[pr.sel_span[0]:pr.sel_span[1]]
                 helpers = []                                # functions of the same file the selected statements call
-                for t in tokenize(out[tg['key']]['slice'], tg['file']):
-                    if t.kind == 'id' and t.text != f.name and t.text not in [h.name for h in helpers]:
+                stoks = tokenize(out[tg['key']]['slice'], tg['file'])
+                for k, t in enumerate(stoks):
+                    if t.kind == 'id' and t.text != f.name and t.text not in [h.name for h in helpers] \
+                            and k + 1 < len(stoks) and stoks[k + 1].text == '(' and (k == 0 or stoks[k - 1].text not in ('.', '->', '::')) \
+                            and t.text not in ('if', 'for', 'while', 'switch', 'return'):
                         hs = find_functions(tg['file'], f.src, t.text)
                         if len(hs) == 1:
                             helpers.append(hs[0])
